@@ -301,7 +301,7 @@ VERUS_UNITS = {
     'cache_revoke': {
         'template': 'cache_revoke.rs.tpl',
         'owners': [(r'ReactCache::revoke_(any_entity_event|resource_mutation|broadcast|despawn)_reactor$', ['C06', 'C01', 'C07']),
-                   (r'ReactCache::revoke_component_reactor$', ['C06', 'C01', 'C07']), (r'ComponentReactors::is_empty$', ['C06', 'C01'])],
+                   (r'ReactCache::revoke_component_reactor$', ['C06', 'C01', 'C07', 'C08']), (r'ComponentReactors::is_empty$', ['C06', 'C01'])],
         'negctl': [
             ('ensures revoked(old(self).resource_reactors.view(), final(self).resource_reactors.view(), resource_id, reactor_id),', 'ensures revoked(old(self).resource_reactors.view(), final(self).resource_reactors.view(), resource_id, reactor_id), final(self).resource_reactors.view().dom().contains(resource_id),', 'ReactCache::revoke_resource_mutation_reactor'),
             ('&&& first_removed(clist(om, t, rtype), clist(nm, t, rtype), reactor_id)', '&&& clist(nm, t, rtype) =~= clist(om, t, rtype)', 'ReactCache::revoke_component_reactor'),
@@ -379,7 +379,7 @@ PROPS = {
         note=ENVNOTE + '; Arc/channel: sequential semantics; in unit gc the channel receiver and World::resource are given exclusive (&mut) access in place of crossbeam\'s interior mutability',
         explanation='one clone per effective registration, one drop per revocation, in-flight handle dropped at end, exact ref-count of the signal (Kani, bounded), one collection drains every pending request (Verus, unbounded); collection points in the runner not covered'),
     'C08': dict(category='other', design_ref='DESIGN.md 9.5',
-        text='Despawn half, function level, all proved by Verus on verbatim text for tables / lists / report queues of ANY size: DespawnTrigger::register queues the registration only for a live entity; the register_despawn_reactor system (closure lifted, rule 16) stores the handle iff the entity is alive when the command is applied, never replaces an existing DespawnTracker (replacing it would report a despawn that did not happen) and wires a new tracker to this cache\'s channel for this entity; ReactCache::register_despawn_reactor appends exactly this handle to the entity\'s list; schedule_despawn_reactions consumes the reports front to back until the channel is empty, queues exactly ONE Despawn command per handle registered for a reported entity, naming that entity and carrying the handle, and REMOVES the list - so a second report of the same entity, or a later poll, fires nothing (at most once per watched entity) and an unreported entity fires nothing; schedule_removal_and_despawn_reactors (closure lifted) polls removals, then despawns, then flushes the queued reaction commands before returning; syscommand_runner polls at its entry, on every abort path and - at EVERY level of the tree - after the run and its garbage collection and before any postponed command is replayed (clause E), so a despawn caused inside a tree is reacted to inside that tree. Removal half: track_removals installs exactly one checker per component type ever watched and (Entity)RemovalTrigger::register / register_removal_reactor store exactly one handle in the table their token names (Verus); schedule_removal_reactions (Verus, verbatim modulo the stated loop normalizations, any number of checkers / reported entities / list lengths) polls every checker once, in table order, and for the entities a checker reports queues - in report order - exactly one EntityReaction(Removal(that checker\'s component type)) per entity-scoped registration of that kind on the reported entity followed by one per type-wide removal registration of that component type, each naming the reported entity, and nothing else (what a checker reports is an uninterpreted function: detection is Bevy\'s). collect_component_removals (Verus, verbatim modulo extraction rule 29 `for_each` -> `for`, any number of reports) returns EXACTLY the removal reports its Bevy reader has not read yet - each once, in report order, nothing filtered out or added, whatever the recycled buffer contained. NOT covered: detection itself (Bevy: RemovedComponents and its cursor, component drop on despawn), the Last-schedule poll of the plugin, and whole histories (re-insert between polls).',
+        text='Despawn half, function level, all proved by Verus on verbatim text for tables / lists / report queues of ANY size: DespawnTrigger::register queues the registration only for a live entity; the register_despawn_reactor system (closure lifted, rule 16) stores the handle iff the entity is alive when the command is applied, never replaces an existing DespawnTracker (replacing it would report a despawn that did not happen) and wires a new tracker to this cache\'s channel for this entity; ReactCache::register_despawn_reactor appends exactly this handle to the entity\'s list; schedule_despawn_reactions consumes the reports front to back until the channel is empty, queues exactly ONE Despawn command per handle registered for a reported entity, naming that entity and carrying the handle, and REMOVES the list - so a second report of the same entity, or a later poll, fires nothing (at most once per watched entity) and an unreported entity fires nothing; schedule_removal_and_despawn_reactors (closure lifted) polls removals, then despawns, then flushes the queued reaction commands before returning; syscommand_runner polls at its entry, on every abort path and - at EVERY level of the tree - after the run and its garbage collection and before any postponed command is replayed (clause E), so a despawn caused inside a tree is reacted to inside that tree. Removal half: track_removals installs exactly one checker per component type ever watched and (Entity)RemovalTrigger::register / register_removal_reactor store exactly one handle in the table their token names (Verus); schedule_removal_reactions (Verus, verbatim modulo the stated loop normalizations, any number of checkers / reported entities / list lengths) polls every checker once, in table order, and for the entities a checker reports queues - in report order - exactly one EntityReaction(Removal(that checker\'s component type)) per entity-scoped registration of that kind on the reported entity followed by one per type-wide removal registration of that component type, each naming the reported entity, and nothing else (what a checker reports is an uninterpreted function: detection is Bevy\'s). no revocation touches the removal polling state: the five revoke_* leave tracked_removals and removal_checkers as they were (Verus, frame clauses of unit cache_revoke; a checker also serves the entity-scoped removal reactors, which the type-wide lists do not count); collect_component_removals (Verus, verbatim modulo extraction rule 29 `for_each` -> `for`, any number of reports) returns EXACTLY the removal reports its Bevy reader has not read yet - each once, in report order, nothing filtered out or added, whatever the recycled buffer contained. NOT covered: detection itself (Bevy: RemovedComponents and its cursor, component drop on despawn), the Last-schedule poll of the plugin, and whole histories (re-insert between polls).',
         note=ENVNOTE + '; channel receiver modelled with &mut access; Vec stand-in (drain, &mut iteration); what a removal checker reports is uninterpreted (detection assumed)',
         explanation='despawn registration, despawn and removal dispatch (exactly one command per registration), poll order and poll points in the runner proved (Verus, unbounded); detection (Bevy) and histories between polls not covered'),
     'C10': dict(category='other', design_ref='DESIGN.md 5/C10 + 9.5',
